@@ -53,6 +53,7 @@ type Frame struct {
 	headSnap map[*ssa.BasicBlock]*Snapshot          // state at the start of an arbitrary iteration (after the invariant was assumed)
 	headPhi  map[*ssa.BasicBlock]map[*ssa.Phi]Val // loop-carried values at the start of that iteration
 	headCells map[*ssa.BasicBlock]map[*Cell]Val
+	headCalls map[*ssa.BasicBlock]map[string]string // call counters at the start of the iteration
 	curLoop  *Loop
 	pendingDefers []deferred // for kind 1: remaining defers of parent
 }
@@ -86,6 +87,10 @@ func (fr *Frame) clone() *Frame {
 	n.headCells = map[*ssa.BasicBlock]map[*Cell]Val{}
 	for k, v := range fr.headCells {
 		n.headCells[k] = v
+	}
+	n.headCalls = map[*ssa.BasicBlock]map[string]string{}
+	for k, v := range fr.headCalls {
+		n.headCalls[k] = v
 	}
 	n.loopSnap = map[*ssa.BasicBlock]*Snapshot{}
 	for k, v := range fr.loopSnap {
@@ -457,6 +462,16 @@ func (x *Exec) enterBlock(st *State, fr *Frame, from, to *ssa.BasicBlock) {
 		hc[c] = v
 	}
 	fr.headCells[to] = hc
+	if fr.headCalls == nil {
+		fr.headCalls = map[*ssa.BasicBlock]map[string]string{}
+	}
+	hcalls := map[string]string{}
+	for k, v := range st.ghost {
+		if strings.HasPrefix(k, "ncalls:") {
+			hcalls[k] = v
+		}
+	}
+	fr.headCalls[to] = hcalls
 	fr.cut[to] = true
 	x.run(st, fr, to, first)
 }
